@@ -32,6 +32,7 @@ type RunConfig struct {
 	Params    map[string]int
 	Seed      int64
 	SampleN   int
+	CrossN    int // number of path sessions to record for solver cross-checking
 }
 
 func NewInterp(env *Env, cfg *RunConfig) (*Interp, error) {
@@ -150,7 +151,15 @@ func (in *Interp) runPath(ex *Explorer, fn *ssa.Function, it workItem, cfg *RunC
 	in.lockDepth = 0
 	in.tf.Reset()
 	in.ptrTokens = nil
+	recording := false
+	if cfg.CrossN > 0 && ex.wantCross(cfg.CrossN) {
+		recording = true
+	}
 	in.solver.Push()
+	if recording {
+		in.solver.StartRecording()
+		in.solver.rec.WriteString("(push 1)\n")
+	}
 	var abort *engineAbort
 	var tpanic *targetPanic
 	var crash interface{}
@@ -213,6 +222,14 @@ func (in *Interp) runPath(ex *Explorer, fn *ssa.Function, it workItem, cfg *RunC
 		}()
 	}
 	in.solver.Pop()
+	if recording {
+		txt, ans := in.solver.StopRecording()
+		if len(ans) > 0 {
+			ex.mu.Lock()
+			ex.crossSessions = append(ex.crossSessions, crossSession{Script: txt, Answers: ans})
+			ex.mu.Unlock()
+		}
+	}
 	in.rollback()
 	in.ps = nil
 	in.epoch = 0
@@ -402,4 +419,24 @@ func (ex *Explorer) wantSample(ps *pathState) bool {
 		h = (h ^ uint64(d)) * 0x100000001b3
 	}
 	return h%4 == 0
+}
+
+type crossSession struct {
+	Script  string
+	Answers []string
+}
+
+func (ex *Explorer) wantCross(n int) bool {
+	ex.mu.Lock()
+	defer ex.mu.Unlock()
+	if ex.crossWanted >= n {
+		return false
+	}
+	// spread over the run: every 37th path
+	ex.crossSeen++
+	if ex.crossSeen%37 != 1 {
+		return false
+	}
+	ex.crossWanted++
+	return true
 }
